@@ -31,19 +31,31 @@ def run(F, R):
 
     # ---------------------------------------------------------------- R1 value term
     R.rule("C07-R1", "the value written is and_then(headers.get(\"X-Retry-After\"), v -> match to_str(v).and_then(parse::<u64>) {Ok(s) => Some(from_secs(min(s, 86400))), Err => None})")
-    writes = [(bi, si, p, r) for (bi, si, p, r) in bv.field_writes if bi in bv.reach0 and smod._chain(p)[-1:] == [FIELD]]
+    # the write may sit in a private helper spliced below the exchange function (`self.update_interval(value, co).await`):
+    # collect it in the first exchange context and everything spliced below it, and read its value as a term of the
+    # exchange function (parameters of the helper resolved to the caller's arguments)
+    cx0 = ex[0]
+    wsites = []
+    for n_ in S.nodes:
+        if n_.idx in S.live and smod.descends(n_.ctx, cx0):
+            for s_ in n_.block["s"]:
+                if s_["k"] == "assign" and s_["p"].get("p") and smod._chain(s_["p"])[-1:] == [FIELD]:
+                    wsites.append((n_, s_))
+    writes = wsites
     if R.floor("C07-R1", "writes of the poll interval in the exchange function", len(writes), 1):
         R.check("C07-R1", "single-write", len(writes) == 1, "one write site", "%d write sites" % len(writes))
-        bi, si, p, r = writes[0]
-        vt = bv._trace_rv(r, None, 0)
+        wn_, ws_ = writes[0]
+        bi = wn_.bi
+        vt = S.resolve_to(cx0, wn_.ctx, wn_.ctx.bv._trace_rv(ws_["r"], None, 0))
         from .. import optnorm
         bodies = []
-        lv = optnorm.leaves(W, bv, vt, bodies)
+        none_from = []
+        lv = optnorm.leaves(W, bv, vt, bodies, none_from=none_from)
         kinds = sorted(set(l[0] for l in lv))
         somes = [l for l in lv if l[0] == "some"]
         others = [l for l in lv if l[0] == "other"]
         R.check("C07-R1", "value-shape", not others and somes and "none" in kinds, "the value is None or Some(..) on every path (%d alternatives in %d bodies)" % (len(lv), len(bodies)),
-                "the poll interval can be something else than None / Some(parsed header): %s" % [terms.render(bv, l[1], W, {}, transparent=NOERR)[:120] for l in others][:3], lib.loc(bv, bi))
+                "the poll interval can be something else than None / Some(parsed header): %s" % [terms.render(bv, l[1], W, {}, transparent=NOERR)[:120] for l in others][:3], wn_.loc())
         exp = "from_secs(min(parse::<u64>(to_str(get(RECV.headers, %r)@OK)@OK)@OK, %d))" % (HEADER, CAP)
         for n_, l in enumerate(somes):
             got = optnorm.canon(terms.render(bv, l[1], W, {}, transparent=NOERR))
@@ -54,7 +66,7 @@ def run(F, R):
                 recv, key, cap = (g[0], g[1], int(g[2])) if not g[0].isdigit() else (g[1], g[2], int(g[0]))
             R.check("C07-R1", "some-payload#%d" % n_, bool(m) and key == HEADER and cap == CAP and "into_parts" in recv,
                     "Some(from_secs(min(parse::<u64>(to_str(headers.get(%r))), %d))) on the parts of the received response" % (HEADER, CAP),
-                    "a Some(..) alternative of the poll interval is %s, expected %s" % (got[:200], exp), lib.loc(bv, bi))
+                    "a Some(..) alternative of the poll interval is %s, expected %s" % (got[:200], exp), wn_.loc())
         # a present, well-formed header is never dropped: every None alternative is built behind the None edge of the
         # lookup or the Err edge of to_str/parse (in whichever body builds it)
         SRC = ("HeaderMap::<T>::get", "HeaderValue::to_str", "str::parse", "::parse", "and_then", "ok")
@@ -87,6 +99,12 @@ def run(F, R):
                 n_none += 1
                 R.check("C07-R1", "none-only-if-absent-or-unparseable:%s#%d" % (v.name.split("::")[-1] if "{closure" not in v.name else "closure", n_none), bool(neg) and v.dominated_by_edge(b_, neg),
                         "None is produced only when the header is absent or does not parse", "None can be produced for a header that is present and parses (the server's interval is dropped)", lib.loc(v, b_))
+        # `result.ok()`: a None that is the Err side of the to_str/parse chain is, by construction, "does not parse"
+        for e_ in none_from:
+            n_none += 1
+            rs_ = terms.render(bv, e_, W, {}, transparent=NOERR)
+            R.check("C07-R1", "none-only-if-absent-or-unparseable:ok()#%d" % n_none, ("to_str(" in rs_ or "parse::<u64>" in rs_) and rs_.endswith("@Err.0") or "@Err.0" in rs_ and ("to_str(" in rs_ or "parse::<u64>" in rs_),
+                    "None is the error side of to_str/parse", "a None alternative comes from an error that is not the header's conversion: %s" % rs_[:120], wn_.loc())
         R.floor("C07-R1", "None alternatives of the header evaluation", n_none, 1)
     # ---------------------------------------------------------------- R2 independent of status
     R.rule("C07-R2", "the header evaluation and the changed-test dominate the HTTP status test (not control-dependent on status or request kind)")
@@ -94,7 +112,7 @@ def run(F, R):
         nodes = [n for n in S.nodes if n.ctx is cx and n.idx in S.live]
         # the lookup may sit in a helper spliced below the exchange function
         get_n = [n.idx for n in S.nodes if n.idx in S.live and smod.descends(n.ctx, cx) and n.term["k"] == "call" and lib.callee_is(n.term, "http::HeaderMap::<T>::get")]
-        ne_n = [n.idx for n in nodes if n.term["k"] == "call" and n.term.get("callee") in ("std::cmp::PartialEq::ne", "std::cmp::PartialEq::eq") and FIELD in fmt_t(cx.bv.trace_op(n.term["args"][0])) + fmt_t(cx.bv.trace_op(n.term["args"][1]))]
+        ne_n = [n.idx for n in S.nodes if n.idx in S.live and smod.descends(n.ctx, cx) and n.term["k"] == "call" and n.term.get("callee") in ("std::cmp::PartialEq::ne", "std::cmp::PartialEq::eq") and FIELD in fmt_t(n.ctx.bv.trace_op(n.term["args"][0])) + fmt_t(n.ctx.bv.trace_op(n.term["args"][1]))]
         # .. and so may a status test (a send helper that looks at the status before handing the response back)
         st_n = [n.idx for n in S.nodes if n.idx in S.live and smod.descends(n.ctx, cx) and n.term["k"] == "call" and not smod.is_logging_span(n.term["sp"]) and (lib.callee_is(n.term, "http::StatusCode::is_success") or "StatusCode" in (n.term.get("callee") or "") or lib.callee_is(n.term, "http::Response::<T>::status"))]
         ver_ok = [(a, b) for (a, b, nm) in sm.outcome_edges(S, "std::ops::ControlFlow", "Continue") if S.nodes[a].ctx is cx and lib.head_call(guards.switch_info(cx.bv, S.nodes[a].bi).term) == "cup_ecdsa::Cupv2RequestHandler::verify_response"]
@@ -123,7 +141,8 @@ def run(F, R):
                     aggs.append((v, bi))
     R.floor("C07-R3", "assignments of the field", len(writers), 1)
     for (v, bi) in writers:
-        R.check("C07-R3", "writer:" + v.name.split("::")[-2], v.id in exb, "assigned in the exchange function", "server_dictated_poll_interval is assigned outside the exchange function: %s" % v.name, lib.loc(v, bi))
+        below = set(cx_.bv.id for cx_ in S.ctxs if any(smod.descends(cx_, e_) for e_ in ex)) | set(cx_.bv.id for cx_ in Sr.ctxs if any(smod.descends(cx_, e_) for e_ in [c_ for c_ in Sr.ctxs if c_.bv.id in exb]))
+        R.check("C07-R3", "writer:" + v.name.split("::")[-2], v.id in exb or v.id in below, "assigned in the exchange function", "server_dictated_poll_interval is assigned outside the exchange function: %s" % v.name, lib.loc(v, bi))
     for (v, bi) in aggs:
         okk = v.body.get("derived") or (v.body.get("parent") and W.by_id[v.body["parent"]].get("item") == "load" and "update_check::Context" in (W.by_id[v.body["parent"]].get("impl_self") or ""))
         R.check("C07-R3", "constructor:" + (v.body.get("item") or v.name.split("::")[-2]), bool(okk), "ProtocolState built in Context::load / derived impl",
@@ -131,6 +150,10 @@ def run(F, R):
     # ---------------------------------------------------------------- R4 announce and commit before continuing
     R.rule("C07-R4", "after a change: ProtocolStateChange(state) is yielded, the context persisted and committed, all awaited, before the exchange returns")
     for cx in ex[:1]:
+        # the context that holds the write: the exchange function, or the helper spliced below it that the section was moved into
+        wcx_ = [n.ctx for n in S.nodes if n.idx in S.live and smod.descends(n.ctx, cx) and any(s_["k"] == "assign" and s_["p"].get("p") and smod._chain(s_["p"])[-1:] == [FIELD] for s_ in n.block["s"])]
+        if wcx_:
+            cx = wcx_[0]
         ch = [(a, b) for (a, b, tr) in sm.bool_edges(S, lambda n, t: n.ctx is cx and t[0] == "call" and t[1] in ("std::cmp::PartialEq::ne",) and FIELD in fmt_t(t)) if tr]
         ch += [(a, b) for (a, b, tr) in sm.bool_edges(S, lambda n, t: n.ctx is cx and t[0] == "call" and t[1] in ("std::cmp::PartialEq::eq",) and FIELD in fmt_t(t)) if not tr]
         wn = [n.idx for n in S.nodes if n.ctx is cx and n.idx in S.live and any(s_["k"] == "assign" and smod._chain(s_["p"])[-1:] == [FIELD] for s_ in n.block["s"])]
@@ -161,7 +184,7 @@ def run(F, R):
             from .. import optnorm
             vt = k["bv"].trace_op(k["t"]["args"][2]) if len(k["t"].get("args", [])) > 2 else ("undef",)
             got = optnorm.option_desc(W, k["bv"], vt)
-            exp = "?ok(i64::try_from(as_micros(param1.0.state.server_dictated_poll_interval@Some.0)))|None"
+            exp = "None|Some{i64::try_from(as_micros(param1.0.state.server_dictated_poll_interval@Some.0))@Ok.0}"
             R.check("C07-R5", "writer:" + k["bv"].name.split("::")[-2], k["name"] == "set_option_int" and got == exp, got, "stored as %s via %s, expected %s" % (got, k["name"], exp), k["loc"])
         for k in rd:
             v = k["bv"]
